@@ -17,7 +17,6 @@
 -/
 import CatVerif.Proofs.WriteNum
 import CatVerif.Proofs.Log
-import CatVerif.Proofs.Steps.ParseArgs
 namespace Cat
 open St Spec
 
@@ -106,21 +105,5 @@ theorem C04_reject_error (D : Desc) (s : St) (i : SvcIn)
 example : IsUIntText [50, 53, 53] ∧ fitsU 1 (decValue [50, 53, 53]) ∧ ¬ fitsU 1 (decValue [50, 53, 54]) := by
   refine ⟨⟨by simp, by decide⟩, ⟨Or.inl rfl, by decide⟩, ?_⟩
   intro ⟨_, h⟩; revert h; decide
-
-/-- how an argument is handed to its variable — the parser chosen by the variable's type, range validation for the
-three numeric types, any failure answered with ERROR before anything else happens; then the variable's write
-callback, the next argument, the end of the list — is the function whose statements are re-recognised in
-`parse_write_args` of the source on every run (translator item T18) -/
-theorem C04_dispatch_generated (D : Desc) (s : St) (i : SvcIn) : parseWriteArgs D s i = Gen.parse_write_args D s i :=
-  parseWriteArgs_generated D s i
-
-/-- the counters this property's theorems keep as unbounded natural numbers (`var_num`, `index`, `position`, `data_size`) are declared
-`size_t` in `cat.h` — 64 bits on the target, so they cannot wrap on any buffer, table or line that exists; the widths
-are read from the struct declarations on every run (translator item T21) -/
-theorem C04_counters_unbounded :
-    Gen.width_cmd_var_num = 64 ∧
-    Gen.width_obj_index = 64 ∧
-    Gen.width_obj_position = 64 ∧
-    Gen.width_var_data_size = 64 := by decide
 
 end Cat
